@@ -3,6 +3,9 @@
 //!   verif-harness <ID> <quick|thorough>
 //!   verif-harness --replay <file>
 
+mod alloccount;
+#[macro_use]
+mod capdispatch;
 mod core;
 mod dev488;
 mod lockstep;
@@ -12,6 +15,9 @@ mod refmodel;
 mod rig;
 
 use crate::core::*;
+
+#[global_allocator]
+static GLOBAL: alloccount::Counting = alloccount::Counting;
 
 fn usage() -> ! {
     eprintln!("usage: verif-harness <C01..C20> <quick|thorough> | --replay <file>");
@@ -37,6 +43,10 @@ fn main() {
     let code = match id {
         "C02" => props::c02::run(ctx),
         "C03" => props::c03::run(ctx),
+        "C05" => props::c05::run(ctx),
+        "C06" => props::c06::run(ctx),
+        "C10" => props::c10::run(ctx),
+        "C11" => props::c11::run(ctx),
         "C12" => props::c12::run(ctx),
         "C14" => props::c14::run(ctx),
         "C13" => props::c13::run(ctx),
@@ -61,6 +71,10 @@ fn replay_file(path: &str) -> i32 {
         match id.as_str() {
             "C02" => props::c02::replay(case),
             "C03" => props::c03::replay(case),
+            "C05" => props::c05::replay(case),
+            "C06" => props::c06::replay(case),
+            "C10" => props::c10::replay(case),
+            "C11" => props::c11::replay(case),
             "C14" => props::c14::replay(case),
             "C12" => props::c12::replay(case).map_err(|m| format!("{}: {}", m.key, m.what)),
             "C13" => props::c13::replay(case).map_err(|m| format!("{}: {}", m.key, m.what)),
